@@ -73,6 +73,18 @@ Theorem C15_errstr_ownership :
 Proof. exact errstr_ownership_proof. Qed.
 Print Assumptions C15_errstr_ownership.
 
+(* nested use (a tj3Transform custom filter calls TurboJPEG on instance x while the call on y is active): the inner call's
+   events lie between the outer call's entry and its failure; afterwards each instance still reports its OWN message *)
+Theorem C15_errstr_nested :
+  forall pre y x m mx inner2 mid s,
+    x <> y ->
+    forallb (fun o => negb (touches_inst x o) && negb (touches_inst y o)) inner2 = true ->
+    forallb (fun o => negb (touches_inst x o) && negb (touches_inst y o)) mid = true ->
+    exists rs,
+      snd (erun (pre ++ [ECall y] ++ [EFail x mx] ++ inner2 ++ [EFail y m] ++ mid ++ [EGet y; EGet x]) s) = (rs ++ [m; mx])%list.
+Proof. exact errstr_nested_proof. Qed.
+Print Assumptions C15_errstr_nested.
+
 (* ... and across threads: error-state operations of different threads on exclusive instances are steps that satisfy
    the noninterference hypotheses, so in every interleaving every query observes what it observes in the solo run *)
 Theorem C15_errstate_threads :
